@@ -1,0 +1,12 @@
+//go:build verif
+
+package epd
+
+// This file is only compiled with the `verif` build tag. It exposes the
+// shuffle helpers to the verification harness in /verif and adds no behaviour.
+
+// VerifShuffleIndex is shuffleIndex.
+func VerifShuffleIndex(x, n, seed uint64) uint64 { return shuffleIndex(x, n, seed) }
+
+// VerifFeistel is feistel.
+func VerifFeistel(x, seed uint64, bits int) uint64 { return feistel(x, seed, bits) }
